@@ -76,8 +76,15 @@ pub fn total<F: Family>(b: &[u8], ctx: &mut Ctx) -> CaseResult {
 }
 
 fn both(b: &[u8], origin: &str, ctx: &mut Ctx) -> CaseResult {
-    total::<V3>(b, ctx)?;
-    total::<V5>(b, ctx)?;
+    // (which family a thread decodes first varies with the input: state that the two families share per thread, and that
+    // the first user fills, has to suit the other one too)
+    if fnv(b) & 1 == 0 {
+        total::<V3>(b, ctx)?;
+        total::<V5>(b, ctx)?;
+    } else {
+        total::<V5>(b, ctx)?;
+        total::<V3>(b, ctx)?;
+    }
     ctx.label(&format!("origin:{}", origin));
     if corpus::reaches_body(crate::model::Fam::V5, b) {
         ctx.label("reaches-a-body-decoder");
